@@ -221,6 +221,10 @@ pub(super) fn complex_borrow_check(
                     // that are parked. Let's see if the cloning allows us to make progress on
                     // some of those nodes.
                     if unblocked_any_node {
+                        // The flag must be reset, otherwise we'd keep bouncing between `Park` and
+                        // `Clone` forever when the remaining parked nodes can't be unblocked
+                        // via cloning, without ever reaching `Error`.
+                        unblocked_any_node = false;
                         strategy_on_block = StrategyOnBlock::Park;
                     } else {
                         strategy_on_block = StrategyOnBlock::Error;
